@@ -203,7 +203,8 @@ def handle : Handler := fun op args impl =>
       -- valid parameters never make the model construction fail
       return ⟨"ok", "fail:construction-" ++ (impl.splitOn " ").head!⟩
     let bad : Ans := ⟨"unparsable-impl", "fail:unparsable"⟩
-    let some secs := parseSections impl | return bad
+    if !impl.startsWith "ok " then return bad
+    let some secs := parseSections (impl.drop 3).toString | return bad
     let get (k : String) (sz : Nat) : Option (Array Float) :=
       (section? secs k).bind fun a => if a.size == sz then some a else none
     let some nI := get "n" 1 | return bad
